@@ -25,6 +25,7 @@ type genParams struct {
 	PCancel   float64
 	PNil      float64
 	PEres     float64
+	PZero     float64 // probability that a leaf is a zero-size node type (all of them share one address)
 	PDyn      float64 // probability that a post callback makes one of the pending Connect calls (dynamic wiring)
 	PPanic    float64 // probability that a prep / exec / post callback panics
 	PBLeaf    float64 // probability that a leaf is a (one-item) batch node
@@ -104,6 +105,9 @@ func (h *hashScript) Get(k skey) Outcome {
 	if h.u(k, 9) < h.p.PCancel {
 		o.Cancel = true
 	}
+	if h.p.Mode == "zerocancel" && k.Phase == "prep" && h.u(k, 14) < 0.3 {
+		o.Cancel = true // the context is cancelled from inside prep: the check after prep must see it whatever the budget
+	}
 	if k.Phase == "post" && h.p.PDyn > 0 && h.u(k, 12) < h.p.PDyn {
 		o.Conns = 1 + int(h.u(k, 13)*2)
 	}
@@ -129,6 +133,11 @@ func genEngineCfg(r *rand.Rand, p genParams) EngineCfg {
 		pick := r.Intn(9)
 		if p.PBLeaf > 0 && r.Float64() < p.PBLeaf {
 			pick = 8
+		}
+		if p.PZero > 0 && i < 8 && r.Float64() < p.PZero {
+			n.Gk = "zerosize" // stateless nodes: pointers to distinct zero-size types
+			c.Nodes = append(c.Nodes, n)
+			continue
 		}
 		switch pick {
 		case 8: // a batch node as a flow step
@@ -220,7 +229,7 @@ func genEngineCfg(r *rand.Rand, p genParams) EngineCfg {
 			c.Pre = append(c.Pre, r.Intn(len(ops)+1))
 		}
 	}
-	if p.Mode == "zerobudget" {
+	if p.Mode == "zerobudget" || p.Mode == "zerocancel" {
 		// a retry budget of zero or less: the attempt loop never runs (outside every property; conformance with the
 		// specification only)
 		for i := range c.Nodes {
@@ -279,6 +288,9 @@ func paramsFor(mode string) genParams {
 			p.PCancel = 0
 			p.MaxVisits = 8
 		}
+	case "zs": // most leaves are stateless nodes of zero-size types
+		p.MaxFlows, p.MaxLeaves, p.MaxRuns = 3, 6, 2
+		p.PZero = 0.8
 	case "dynwire": // some Connect calls are made from inside post callbacks while the flow runs
 		p.MaxFlows, p.MaxLeaves, p.MaxRuns = 3, 5, 2
 		p.PExecErr, p.PDyn = 0.1, 0.5
@@ -288,6 +300,9 @@ func paramsFor(mode string) genParams {
 	case "zerobudget":
 		p.MaxFlows, p.MaxLeaves, p.MaxRuns = 2, 4, 1
 		p.PExecErr, p.PFbErr = 0.3, 0.3
+	case "zerocancel": // budgets below one with cancellations (also from inside prep)
+		p.MaxFlows, p.MaxLeaves, p.MaxRuns = 2, 4, 1
+		p.PExecErr, p.PCancel = 0.2, 0.12
 	case "batchflow": // flows whose steps are mostly batch nodes, cancelled from inside an item
 		p.PBLeaf = 0.75
 		p.MaxFlows, p.MaxLeaves, p.MaxRuns = 2, 4, 2
